@@ -339,6 +339,38 @@ func (l *e7lru) BadE7add(k uint16) {
 	l.index[k] = l.order.PushFront(k)
 }
 
+// GoodE7recycle reuses the oldest element and drops its old key first.
+func (l *e7lru) GoodE7recycle(k uint16) {
+	if _, ok := l.index[k]; ok {
+		return
+	}
+	if l.order.Len() < l.size {
+		l.index[k] = l.order.PushFront(k)
+		return
+	}
+	e := l.order.Back()
+	delete(l.index, e.Value.(uint16))
+	e.Value = k
+	l.order.MoveToFront(e)
+	l.index[k] = e
+}
+
+// BadE7recycle reuses the oldest element and leaves its old key in the index.
+func (l *e7lru) BadE7recycle(k uint16) {
+	if _, ok := l.index[k]; ok {
+		return
+	}
+	var e *list.Element
+	if l.order.Len() < l.size {
+		e = l.order.PushFront(k)
+	} else {
+		e = l.order.Back()
+		e.Value = k
+		l.order.MoveToFront(e)
+	}
+	l.index[k] = e
+}
+
 // ---- F8: nothing half-parsed is published ----------------------------------------------------------------------------------
 
 type f8cache map[string]any
